@@ -50,11 +50,19 @@ CONSTANTS W,         \* request slots (concurrent HTTP requests)
           Curs,      \* possible wall-clock rounds at the start
           Monotone,  \* TRUE: one connection only delivers increasing rounds (may skip)
           Ticks,     \* TRUE: the wall clock may advance
-          IdleRec    \* TRUE: idle-timer reconnects are explored
+          IdleRec,   \* TRUE: idle-timer reconnects are explored
+          Cap,       \* capacity of a waiter's channel (make(chan watchUpdate, 1)); SpecFine only
+          Eager      \* SpecFine only: steps the goroutines take by themselves have priority (replayable schedules)
 
-VARIABLES latest, pending, req, stream, sent, head, cur, out, act
+VARIABLES latest, pending, req, stream, sent, head, cur, out, act,
+          \* the hand-over at its real grain (SpecFine; constant under Spec):
+          lk,        \* writer of pendingLk: "free" | "watch" (a request holds it only inside one step)
+          wpc,       \* the watch loop: st = "recv" | "wantlock" | "gate" (hook http.watch.locked) | "sending"
+          ch,        \* per request slot: content of its waiter channel (at most max(Cap,1) updates)
+          ctxd       \* per request slot: its context is done (client went away)
 
-vars == <<latest, pending, req, stream, sent, head, cur, out, act>>
+fvars == <<lk, wpc, ch, ctxd>>
+vars == <<latest, pending, req, stream, sent, head, cur, out, act, lk, wpc, ch, ctxd>>
 
 IdleReq == [pc |-> "idle", round |-> 0]
 
@@ -97,6 +105,8 @@ Mon_C01_HTTP(o) == \A rsp \in o : RespOK(rsp)
 Init == /\ latest = 0 /\ pending = {} /\ req = [w \in W |-> IdleReq]
         /\ stream = "off" /\ sent = 0 /\ head = 0 /\ cur \in Curs
         /\ out = {} /\ act = <<"Init", cur>>
+        /\ lk = "free" /\ wpc = [st |-> "recv", x |-> 0, fail |-> FALSE, todo |-> {}, body |-> 0]
+        /\ ch = [w \in W |-> <<>>] /\ ctxd = [w \in W |-> FALSE]
 
 \* canonical slot choice (slots are interchangeable): the lowest idle slot
 Lowest(w) == req[w].pc = "idle" /\ \A v \in W : v < w => req[v].pc # "idle"
@@ -104,6 +114,7 @@ Lowest(w) == req[w].pc = "idle" /\ \A v \in W : v < w => req[v].pc # "idle"
 Started == IF stream = "off" THEN "conn" ELSE stream
 
 ReqStart(w, r) ==
+  /\ UNCHANGED fvars
   /\ Lowest(w)
   /\ act' = <<"ReqStart", w, r>>
   /\ UNCHANGED <<latest, pending, head, cur, sent>>
@@ -118,6 +129,7 @@ ReqStart(w, r) ==
                       /\ UNCHANGED req
 
 ReqCheck2(w) ==
+  /\ UNCHANGED fvars
   /\ req[w].pc = "checked"
   /\ act' = <<"ReqCheck2", w>>
   /\ UNCHANGED <<latest, stream, head, cur, sent>>
@@ -134,6 +146,7 @@ ReqCheck2(w) ==
 Refetch(w, via) == LET d == Direct(req[w].round, cur, head) IN Resp(w, req[w].round, d.status, d.body, via)
 
 WatchItem(x) ==
+  /\ UNCHANGED fvars
   /\ stream = "conn"
   /\ x \in 1..head
   /\ Monotone => x > sent
@@ -147,6 +160,7 @@ WatchItem(x) ==
   /\ UNCHANGED <<stream, head, cur>>
 
 StreamFail ==
+  /\ UNCHANGED fvars
   /\ stream = "conn"
   /\ act' = <<"StreamFail">>
   /\ stream' = "backoff"
@@ -157,6 +171,7 @@ StreamFail ==
   /\ UNCHANGED <<sent, head, cur>>
 
 Reconnect ==
+  /\ UNCHANGED fvars
   /\ stream = "backoff"
   /\ act' = <<"Reconnect">>
   /\ stream' = "conn" /\ sent' = 0
@@ -164,6 +179,7 @@ Reconnect ==
   /\ UNCHANGED <<latest, pending, req, head, cur>>
 
 IdleReconn ==
+  /\ UNCHANGED fvars
   /\ IdleRec /\ stream = "conn" /\ (Monotone => sent # 0)
   /\ act' = <<"IdleReconn">>
   /\ sent' = 0
@@ -171,6 +187,7 @@ IdleReconn ==
   /\ UNCHANGED <<latest, pending, req, stream, head, cur>>
 
 Timeout(w) ==
+  /\ UNCHANGED fvars
   /\ req[w].pc = "parked"
   /\ act' = <<"Timeout", w>>
   /\ pending' = pending \ {w}
@@ -179,12 +196,14 @@ Timeout(w) ==
   /\ UNCHANGED <<latest, stream, sent, head, cur>>
 
 ReqLatest(w) ==
+  /\ UNCHANGED fvars
   /\ Lowest(w)
   /\ act' = <<"ReqLatest", w>>
   /\ LET d == LatestResp(head) IN out' = {Resp(w, 0, d.status, d.body, "latest")}
   /\ UNCHANGED <<latest, pending, req, stream, sent, head, cur>>
 
 NodeAdvance ==
+  /\ UNCHANGED fvars
   /\ head < MaxRound
   /\ act' = <<"NodeAdvance">>
   /\ head' = head + 1
@@ -192,6 +211,7 @@ NodeAdvance ==
   /\ UNCHANGED <<latest, pending, req, stream, sent, cur>>
 
 Tick ==
+  /\ UNCHANGED fvars
   /\ Ticks /\ cur < MaxRound
   /\ act' = <<"Tick">>
   /\ cur' = cur + 1
@@ -206,13 +226,177 @@ Next == \/ \E w \in W, r \in 1..(MaxRound + 1) : ReqStart(w, r)
         \/ \E w \in W : ReqLatest(w)
         \/ NodeAdvance \/ Tick
 
+\* The coarse machine: one watch-loop iteration (Lock; update; send to every waiter; Unlock) is ONE step and so
+\* is a cancelled request (ctx.Done; Lock; remove; drain; Unlock).  That is sound as long as a send to a waiter
+\* never blocks inside the critical section - which is what SpecFine below establishes for Cap >= 1.
+\* (every coarse action leaves the fine-grain variables alone)
+
 Spec == Init /\ [][Next]_vars
+
+-----------------------------------------------------------------------------
+(* The hand-over between the watch loop and the parked requests at its real grain (C14: no request may  *)
+(* leave pendingLk held or the watch loop stopped).                                                     *)
+(*   FRecv(x)    the loop receives item x from the stream (then marshals it, wants the lock)            *)
+(*   FFailRecv   the loop sees the stream closed                                                        *)
+(*   FLock       bh.pendingLk.Lock() granted; on an item the loop is now at hook http.watch.locked      *)
+(*   FRelease    (the harness opens the gate) latestRound = x; releasePending copies and clears the list*)
+(*   FSend(w)    waiter <- u  for one waiter of the copied list (blocks while the channel is full)      *)
+(*   FUnlock     bh.pendingLk.Unlock(); back to the select                                              *)
+(*   Cancel(w)   the client of parked request w goes away (its context is done)                         *)
+(*   FDone(w)    the select of getRand takes the ctx.Done branch; the request now wants the write lock  *)
+(*   FUnreg(w)   Lock; remove itself from bh.pending; drain its channel; return ctx.Err(); Unlock       *)
+(*   FTake(w)    the select takes the channel branch: answer with the update or fetch the regular way   *)
+(* Requests that need pendingLk (ReqStart: RLock, ReqCheck2: Lock) wait while the loop holds it.         *)
+
+Upd(r, b) == [round |-> r, body |-> b]
+WIdle == [st |-> "recv", x |-> 0, fail |-> FALSE, todo |-> {}, body |-> 0]
+Finish(w) == /\ req' = [req EXCEPT ![w] = IdleReq]
+             /\ ch' = [ch EXCEPT ![w] = <<>>]
+             /\ ctxd' = [ctxd EXCEPT ![w] = FALSE]
+
+\* a send returns at once iff there is room in the channel or (unbuffered) the receiver sits in its select
+SendOK(w) == IF Cap = 0 THEN req[w].pc = "parked" /\ ch[w] = <<>> ELSE Len(ch[w]) < Cap
+\* the watch loop is stuck in `waiter <- u` while it holds pendingLk; every waiter left in its list has
+\* either left its select for good (it waits for the very lock the loop holds) or has a full channel
+WatchBlocked == wpc.st = "sending" /\ wpc.todo # {} /\ \A w \in wpc.todo : ~SendOK(w)
+\* C14 for the relay: the loop never blocks holding the lock, hence every request that waits for the lock
+\* gets it and a fresh request afterwards is answered
+RelayNotWedged == ~WatchBlocked
+
+FRecv(x) ==
+  /\ stream = "conn" /\ wpc.st = "recv"
+  /\ x \in 1..head
+  /\ Monotone => x > sent
+  /\ act' = <<"FRecv", x>>
+  /\ wpc' = [WIdle EXCEPT !.st = "wantlock", !.x = x]
+  /\ sent' = IF Monotone THEN x ELSE 0
+  /\ out' = {}
+  /\ UNCHANGED <<latest, pending, req, stream, head, cur, lk, ch, ctxd>>
+
+FFailRecv ==
+  /\ stream = "conn" /\ wpc.st = "recv"
+  /\ act' = <<"FFailRecv">>
+  /\ wpc' = [WIdle EXCEPT !.st = "wantlock", !.fail = TRUE]
+  /\ stream' = "backoff"
+  /\ out' = {}
+  /\ UNCHANGED <<latest, pending, req, sent, head, cur, lk, ch, ctxd>>
+
+FLock ==
+  /\ wpc.st = "wantlock" /\ lk = "free"
+  /\ act' = <<"FLock">>
+  /\ lk' = "watch"
+  /\ out' = {}
+  /\ IF wpc.fail
+       THEN /\ latest' = 0                                      \* releasePending(watchUpdate{})
+            /\ wpc' = [wpc EXCEPT !.st = "sending", !.todo = pending, !.body = 0]
+            /\ pending' = {}
+       ELSE /\ wpc' = [wpc EXCEPT !.st = "gate"]
+            /\ UNCHANGED <<latest, pending>>
+  /\ UNCHANGED <<req, stream, sent, head, cur, ch, ctxd>>
+
+FRelease ==
+  /\ wpc.st = "gate"
+  /\ act' = <<"FRelease">>
+  /\ wpc' = [wpc EXCEPT !.st = "sending", !.todo = pending, !.body = ItemBody(latest, wpc.x)]
+  /\ latest' = wpc.x
+  /\ pending' = {}
+  /\ out' = {}
+  /\ UNCHANGED <<req, stream, sent, head, cur, lk, ch, ctxd>>
+
+\* what a request does with the update it receives
+Deliver(w, u) ==
+  /\ out' = {IF u.round = req[w].round /\ u.body # 0 THEN Resp(w, req[w].round, 200, u.body, "item")
+                                                     ELSE Refetch(w, "item-refetch")}
+  /\ Finish(w)
+
+FSend(w) ==
+  /\ wpc.st = "sending" /\ w \in wpc.todo /\ SendOK(w)
+  /\ act' = <<"FSend", w>>
+  /\ wpc' = [wpc EXCEPT !.todo = @ \ {w}]
+  /\ LET u == IF wpc.fail THEN Upd(0, 0) ELSE Upd(wpc.x, wpc.body) IN
+       IF Cap = 0 THEN Deliver(w, u)                            \* rendezvous with the select
+       ELSE /\ ch' = [ch EXCEPT ![w] = Append(@, u)]
+            /\ out' = {}
+            /\ UNCHANGED <<req, ctxd>>
+  /\ UNCHANGED <<latest, pending, stream, sent, head, cur, lk>>
+
+FUnlock ==
+  /\ wpc.st = "sending" /\ wpc.todo = {}
+  /\ act' = <<"FUnlock">>
+  /\ lk' = "free" /\ wpc' = WIdle
+  /\ out' = {}
+  /\ UNCHANGED <<latest, pending, req, stream, sent, head, cur, ch, ctxd>>
+
+Cancel(w) ==
+  /\ req[w].pc = "parked" /\ ~ctxd[w]
+  /\ act' = <<"Cancel", w>>
+  /\ ctxd' = [ctxd EXCEPT ![w] = TRUE]
+  /\ out' = {}
+  /\ UNCHANGED <<latest, pending, req, stream, sent, head, cur, lk, wpc, ch>>
+
+FDone(w) ==
+  /\ req[w].pc = "parked" /\ ctxd[w]
+  /\ act' = <<"FDone", w>>
+  /\ req' = [req EXCEPT ![w].pc = "wantlock"]
+  /\ out' = {}
+  /\ UNCHANGED <<latest, pending, stream, sent, head, cur, lk, wpc, ch, ctxd>>
+
+FUnreg(w) ==
+  /\ req[w].pc = "wantlock" /\ lk = "free"
+  /\ act' = <<"FUnreg", w>>
+  /\ pending' = pending \ {w}
+  /\ out' = {Resp(w, req[w].round, 500, -1, "timeout")}
+  /\ Finish(w)
+  /\ UNCHANGED <<latest, stream, sent, head, cur, lk, wpc>>
+
+FTake(w) ==
+  /\ req[w].pc = "parked" /\ ch[w] # <<>>
+  /\ act' = <<"FTake", w>>
+  /\ Deliver(w, Head(ch[w]))
+  /\ UNCHANGED <<latest, pending, stream, sent, head, cur, lk, wpc>>
+
+\* steps the goroutines take by themselves (not schedulable from outside once they are possible)
+Internal == \/ FLock \/ FUnlock
+            \/ \E w \in W : FSend(w) \/ FDone(w) \/ FUnreg(w) \/ FTake(w)
+\* steps of the environment / the harness.  With Eager they wait until the goroutines have done what they can
+\* do by themselves, which makes every behaviour a schedule the harness can drive through the two gates.
+Ext == ~(Eager /\ ENABLED Internal)
+EReqStart(w, r) == Ext /\ lk = "free" /\ ReqStart(w, r)
+EReqCheck2(w) == Ext /\ lk = "free" /\ ReqCheck2(w)
+EReqLatest(w) == Ext /\ ReqLatest(w)
+EReconnect == Ext /\ wpc.st = "recv" /\ Reconnect
+ENodeAdvance == Ext /\ NodeAdvance
+EFRecv(x) == Ext /\ FRecv(x)
+EFFailRecv == Ext /\ FFailRecv
+EFRelease == Ext /\ FRelease
+ECancel(w) == Ext /\ Cancel(w)
+
+NextFine == \/ FLock \/ FUnlock
+            \/ \E w \in W : FSend(w) \/ FDone(w) \/ FUnreg(w) \/ FTake(w)
+            \/ \E w \in W, r \in 1..(MaxRound + 1) : EReqStart(w, r)
+            \/ \E w \in W : EReqCheck2(w) \/ EReqLatest(w) \/ ECancel(w)
+            \/ EReconnect \/ ENodeAdvance \/ EFFailRecv \/ EFRelease
+            \/ \E x \in 1..MaxRound : EFRecv(x)
+SpecFine == Init /\ [][NextFine]_vars
+
+ViewFine == <<latest, pending, req, stream, sent, head, cur, out, lk, wpc, ch, ctxd>>
+ViewFineTour == <<latest, pending, req, stream, sent, head, cur, lk, wpc, ch, ctxd>>
 
 \* exhaustive configs hide only the label; the tour config also hides the responses
 View == <<latest, pending, req, stream, sent, head, cur, out>>
 ViewTour == <<latest, pending, req, stream, sent, head, cur>>
 
 -----------------------------------------------------------------------------
+TypeFineOK == /\ lk \in {"free", "watch"}
+              /\ wpc.st \in {"recv", "wantlock", "gate", "sending"} /\ wpc.todo \subseteq W
+              /\ \A w \in W : Len(ch[w]) <= (IF Cap = 0 THEN 0 ELSE Cap) /\ ctxd[w] \in BOOLEAN
+              /\ (lk = "watch") = (wpc.st \in {"gate", "sending"})
+              /\ \A w \in W : req[w].pc \in {"idle", "checked", "parked", "wantlock"}
+\* the loop's copied list only holds requests that are still in flight, and nobody is in both lists
+Inv_Todo == /\ \A w \in wpc.todo : req[w].pc \in {"parked", "wantlock"}
+            /\ wpc.todo \cap pending = {}
+Inv_RelayNotWedged == RelayNotWedged
+
 TypeOK == /\ latest \in 0..MaxRound /\ head \in 0..MaxRound /\ cur \in 1..MaxRound
           /\ sent \in 0..MaxRound /\ pending \subseteq W
           /\ stream \in {"off", "conn", "backoff"}
